@@ -14,6 +14,7 @@
 import Mhd.Proofs.PPUrl
 import Mhd.Proofs.PPMulti
 import Mhd.Proofs.PPUrlSafe
+import Mhd.Proofs.PPMpRt
 
 namespace Mhd.C15
 open Mhd.PP
@@ -141,18 +142,107 @@ example : ∃ pp0, create 256 (Mhd.Gen.PP.encMultipart ++
     simp only [Option.map_some, Option.some.injEq, Prod.mk.injEq] at h
     exact ⟨p, rfl, h.1, h.2⟩
 
+/-- **Round trip, single-level multipart/form-data, EVERY split, every buffer size and boundary.**
+    `parts` is any list of fields (name, optional file name / content type / transfer encoding, value:
+    arbitrary bytes — CR, LF, NUL, `--`, boundary look-alikes included); `encodeMultipart` is the standard
+    rendering `--B CRLF headers CRLF CRLF value CRLF … --B-- CRLF`.  Side conditions:
+    * `boundaryFresh`: the delimiter `CRLF--B` does not occur in a value (nor across the end of a value
+      and the delimiter that follows it) — decidable;
+    * `PartOk (n+4) p`: every header line of `p` is shorter than the buffer (`n + 4` bytes) and free of
+      CR/LF, is read back to the intended four strings by the line parser of `process_multipart_headers`
+      (`hdrM` folds `try_get_value`/`try_match_header` over the lines — decidable; it fails e.g. for a
+      name containing ` filename=` or a content type containing `Content-Transfer-Encoding: `), and the
+      content type is not `multipart/mixed` (nested containers: see below);
+    * the boundary is not empty (`create` already guarantees `2·|B|+2 ≤ n`).
+    Then for **every** list of chunks whose concatenation is the body: every `MHD_post_process` call returns
+    `MHD_YES`, `MHD_destroy_post_processor` returns `MHD_YES`, no access leaves an object, and the iterator
+    calls deliver exactly the fields, in order, each with its key / file name / content type / encoding,
+    offsets contiguous from 0, data concatenating to the value (`Delivers`). -/
+theorem multipart_roundtrip (n : Nat) (ctype : Bytes) (pp0 : PP) (parts : List Part) (chunks : List Bytes)
+    (hc : create n ctype = some pp0) (hu : pp0.isUrl = false) (hB : 1 ≤ pp0.boundary.length)
+    (hfresh : boundaryFresh pp0.boundary parts = true) (hp : ∀ p ∈ parts, PartOk (n + 4) p)
+    (hch : chunks.flatten = encodeMultipart pp0.boundary parts) :
+    ∃ pp, run n ctype chunks = some (pp, true) ∧ pp.fault = none ∧ Delivers pp.evs (parts.map fieldOf) ∧
+      ∀ pre ch post, chunks = pre ++ ch :: post → (feed (feedAll pp0 pre) ch).2 = true :=
+  Mhd.PP.multipart_roundtrip n ctype pp0 parts chunks hc hu hB hfresh hp hch
+
+/-- Split independence for multipart: two arbitrary splits of the same well-formed body deliver the same
+    fields (the pieces may be cut differently, their concatenation per field is the same). -/
+theorem multipart_split_independent (n : Nat) (ctype : Bytes) (pp0 : PP) (parts : List Part)
+    (chunks₁ chunks₂ : List Bytes)
+    (hc : create n ctype = some pp0) (hu : pp0.isUrl = false) (hB : 1 ≤ pp0.boundary.length)
+    (hfresh : boundaryFresh pp0.boundary parts = true) (hp : ∀ p ∈ parts, PartOk (n + 4) p)
+    (h₁ : chunks₁.flatten = encodeMultipart pp0.boundary parts) (h₂ : chunks₂.flatten = chunks₁.flatten) :
+    ∃ pp₁ pp₂, run n ctype chunks₁ = some (pp₁, true) ∧ run n ctype chunks₂ = some (pp₂, true) ∧
+      Delivers pp₁.evs (parts.map fieldOf) ∧ Delivers pp₂.evs (parts.map fieldOf) := by
+  obtain ⟨p1, a1, _, a3, _⟩ := Mhd.PP.multipart_roundtrip n ctype pp0 parts chunks₁ hc hu hB hfresh hp h₁
+  obtain ⟨p2, b1, _, b3, _⟩ := Mhd.PP.multipart_roundtrip n ctype pp0 parts chunks₂ hc hu hB hfresh hp (h₂.trans h₁)
+  exact ⟨p1, p2, a1, b1, a3, b3⟩
+
+/-! Non-vacuity: boundary `AaB03x`, smallest buffer; field `k1` with the binary value
+    `a CR LF - - A a B 0 3 00 ff` (a boundary look-alike: the delimiter minus its last byte), and a file
+    field `f` (`a.txt`, `text/plain`, `binary`) with the empty value; the body is cut inside the first
+    value, then a 1-byte piece, an empty piece, and the rest. -/
+
+def exCtype : Bytes := Mhd.Gen.PP.encMultipart ++ ofStr "; boundary=AaB03x"
+def exParts : List Part :=
+  [{ name := ofStr "k1", value := [0x61, 0x0D, 0x0A, 0x2D, 0x2D, 0x41, 0x61, 0x42, 0x30, 0x33, 0x00, 0xFF] },
+   { name := ofStr "f", filename := some (ofStr "a.txt"), ctype := some (ofStr "text/plain"),
+     enc := some (ofStr "binary"), value := [] }]
+
+theorem exCreate : ∃ pp0, create 256 exCtype = some pp0 ∧ pp0.isUrl = false ∧ pp0.boundary = ofStr "AaB03x" := by
+  have h : (create 256 exCtype).map (fun p => (p.isUrl, p.boundary)) = some (false, ofStr "AaB03x") := by decide +kernel
+  cases hc : create 256 exCtype with
+  | none => rw [hc] at h; cases h
+  | some p =>
+    rw [hc] at h
+    simp only [Option.map_some, Option.some.injEq, Prod.mk.injEq] at h
+    exact ⟨p, rfl, h.1, h.2⟩
+
+theorem exPartOk : ∀ p ∈ exParts, PartOk (256 + 4) p := by
+  intro p hp
+  simp only [exParts, List.mem_cons, List.mem_nil_iff, or_false] at hp
+  rcases hp with rfl | rfl
+  · refine ⟨?_, by decide +kernel, by intro ct h; cases h⟩
+    intro ln hln
+    simp only [hdrLines, List.mem_cons, List.append_nil, List.mem_nil_iff, or_false] at hln
+    subst hln
+    unfold LineOk
+    decide +kernel
+  · refine ⟨?_, by decide +kernel, by intro ct h; cases h; decide +kernel⟩
+    intro ln hln
+    simp only [hdrLines, List.mem_cons, List.cons_append, List.nil_append, List.mem_nil_iff, or_false] at hln
+    unfold LineOk
+    rcases hln with rfl | rfl | rfl <;> decide +kernel
+
+theorem exSplit (E : Bytes) : [E.take 70, (E.drop 70).take 1, [], E.drop 71].flatten = E := by
+  have : E.drop 71 = (E.drop 70).drop 1 := by rw [List.drop_drop]
+  simp only [List.flatten_cons, List.flatten_nil, List.nil_append, List.append_nil, this, List.take_append_drop]
+
+example : ∃ pp, run 256 exCtype [(encodeMultipart (ofStr "AaB03x") exParts).take 70,
+      ((encodeMultipart (ofStr "AaB03x") exParts).drop 70).take 1, [],
+      (encodeMultipart (ofStr "AaB03x") exParts).drop 71] = some (pp, true) ∧ pp.fault = none ∧
+    Delivers pp.evs (exParts.map fieldOf) := by
+  obtain ⟨pp0, h1, h2, h3⟩ := exCreate
+  obtain ⟨pp, r1, r2, r3, _⟩ := multipart_roundtrip 256 exCtype pp0 exParts _ h1 h2 (by rw [h3]; decide +kernel)
+    (by rw [h3]; decide +kernel) exPartOk (by rw [h3]; exact exSplit _)
+  exact ⟨pp, r1, r2, r3⟩
+
 /-
-  Round trip for multipart (statement kept, NOT proved — carried by the correspondence run only):
+  NOT proved (carried by the correspondence run only): the same statement for nested multipart/mixed
+  (a part whose Content-Type is `multipart/mixed; boundary=N` and whose body is itself a multipart body
+  with boundary `N`, every inner file reported under the outer name):
 
-    theorem multipart_roundtrip (n boundary parts chunks)
-        (hb : 2 ≤ boundary.length ∧ boundary.length * 2 + 2 ≤ n ∧ boundaryFresh boundary parts = true)
-        (hp : ∀ p ∈ parts, headerLinesFit n p ∧ metadataPlain p)          -- lines < n + 4, no quote/CR/LF/NUL
-        (hc : chunks.flatten = encodeMultipart boundary parts) :
-        ∃ pp, run n (multipart/form-data; boundary=…) chunks = some (pp, true) ∧ pp.fault = none ∧
-          Delivers pp.evs (parts.map fun p => (⟨some p.name, p.filename, p.ctype, p.enc⟩, p.value))
+    theorem multipart_nested_roundtrip … (parts : List (Part ⊕ MixedPart)) …
+        Delivers pp.evs (flattened fields, inner files carrying the outer `name` and their own
+                         filename / content type / encoding)
 
-  and its extension to nested multipart/mixed.  Missing: the analogue of `LInv`/`step` for the
-  multipart machine (the invariant that relates window, `skip_rn`, header strings and the part list).
+  Missing: the phases `PP_Nested_Init … PP_Nested_PerformCleanup` in the invariant `Mhd.PP.MInv`
+  (`Mhd/Proofs/PPMpInv.lean`): two more `MMain` constructors (`nhdr`, `nval`, with the `have*` marks and
+  `free_unmarked` restoring the outer strings) and the two-level "what follows a delimiter" function in place
+  of `afterB`; `scanBoundary_fresh`, `rn_step`, `hdr_step`/`val_step` are already parametric in the boundary
+  and can be reused.  Also not proved: a purely syntactic sufficient condition for the `hdr` clause of
+  `PartOk` (it is a decidable predicate stated with the line parser itself).
 -/
 
 end Mhd.C15
